@@ -78,15 +78,29 @@ def rule_poporder(crate):
                     if rev is not None:
                         emitted[o] = emitted.get(o, False) or rev
     n = 0
+    # pop-loops may live in helper methods of the VM that the arms call (`self.pop_ffi_args(..)`): they belong to the
+    # instructions whose arms call the helper
+    loops = []  # (function body record, loop node, arm, ops)
     for fl in walk(run["body"]):
-        if not (fl.get("k") == "Match" and str(fl.get("src", "")).startswith("ForLoop")):
-            continue
+        if fl.get("k") == "Match" and str(fl.get("src", "")).startswith("ForLoop") and id(fl) in arm_of:
+            loops.append((run, fl, arm_of[id(fl)][0], arm_of[id(fl)][1]))
+    helper_ops = {}
+    for x in walk(run["body"]):
+        if x.get("k") == "MethodCall" and id(x) in arm_of:
+            c = callee(x) or ""
+            if c.startswith("crate::vm::Vm::") and c in crate.hir and c != run["def"]:
+                helper_ops.setdefault(c, (arm_of[id(x)][0], set()))[1].update(arm_of[id(x)][1])
+    for c, (harm, hops) in sorted(helper_ops.items()):
+        hb = crate.hir[c]
+        for fl in walk(hb["body"]):
+            if fl.get("k") == "Match" and str(fl.get("src", "")).startswith("ForLoop") and any(_is_pop(y) for y in walk(fl)):
+                loops.append((hb, fl, {"body": hb["body"]}, hops))
+    for (owner_fn, fl, arm, vs) in loops:
         if not (fl["scrut"].get("k") == "Call" and (callee(fl["scrut"]) or "").endswith("IntoIterator::into_iter")):
             continue  # the inner `match iter.next()` of the desugaring
         pops = [x for x in walk(fl) if _is_pop(x)]
-        if not pops or id(fl) not in arm_of:
+        if not pops:
             continue
-        arm, vs = arm_of[id(fl)]
         ops = sorted(vs)
         # how are the popped values collected?
         how = None
@@ -108,7 +122,7 @@ def rule_poporder(crate):
         if how is None:
             continue
         n += 1
-        sf, sl = crate.loc(run, site)
+        sf, sl = crate.loc(owner_fn, site)
         restores = how in ("push_front", "prepend")
         if not restores:
             # a reversal of the collection later in the arm restores the order as well
